@@ -23,5 +23,6 @@ func init() {
 		wireHostile(c, n)
 		wireStall(c)
 		protoHostile(c)
+		runLimitConfig(c)
 	}
 }
